@@ -158,6 +158,20 @@ func (seg *Segment) IsAmbiguous(s2 *Segment) bool {
 		(seg.Endpoint == s2.Endpoint && seg.Type == s2.Type && seg.rule == s2.rule && seg.Suffix == s2.Suffix)
 }
 
+// AmbiguousPrefixLen 判断 seg 是否为 s2 除名称之外的前缀
+//
+// 即参数部分除了名称之外都相同，且 seg.Suffix 是 s2.Suffix 的前缀。节点被拆分之后，
+// 比如 {id}/a 和其子节点 uthor，与完整的 {name}/author 比较时会出现这种情况。
+// 返回 s2.Value 中被 seg 覆盖的长度，0 表示不符合条件。
+func (seg *Segment) AmbiguousPrefixLen(s2 *Segment) int {
+	if seg.Type == String || seg.Type != s2.Type || seg.rule != s2.rule || seg.Suffix == "" ||
+		(seg.ignoreName == s2.ignoreName && seg.Name == s2.Name) ||
+		len(seg.Suffix) >= len(s2.Suffix) || !strings.HasPrefix(s2.Suffix, seg.Suffix) {
+		return 0
+	}
+	return len(s2.Value) - len(s2.Suffix) + len(seg.Suffix)
+}
+
 func (seg *Segment) AmbiguousLen() int16 {
 	return seg.ambiguousLength + int16(len(seg.Name))
 }
